@@ -119,10 +119,13 @@ Definition cls_refdef (L : list srcline) (f : fail) : bool :=
   end.
 
 (* ---- C11-c / C12-c  bom_line1: with a byte-order mark, start columns on line 1 count its three bytes
-   and some end columns do not; a table that starts on line 1 hands its start column to all its rows ---- *)
+   and some end columns do not; a table that starts on line 1 hands its start column to all its rows.
+   Predicate: the source has a byte-order mark and the node itself starts or ends on line 1, or lies in a
+   table that starts on line 1 ---- *)
 Definition cls_bom (L : list srcline) (f : fail) : bool :=
-  src_has_bom L && existsb (fun n => (sl (nsp n) =? 1) || (el (nsp n) =? 1))
-                           (f_node f :: filter (fun a => negb (match nval a with Document => true | _ => false end)) (f_anc f)).
+  src_has_bom L &&
+  ((sl (fsp f) =? 1) || (el (fsp f) =? 1) ||
+   existsb (fun a => match nval a with Table _ => sl (nsp a) =? 1 | _ => false end) (f_anc f)).
 
 (* ---- mbq_unfinalized: when the closing fence of a multiline block quote (or multiline alert) arrives
    only its last child is finalized; deeper blocks that are still open keep the end they were created
@@ -231,10 +234,11 @@ Definition cls_row_indent (L : list srcline) (f : fail) : bool :=
 
 (* ---- html_block_end_condition: an HTML block of type 1 to 5 is closed ON the line that meets its end
    condition, but finalize gives it the end of the line before (line_number - 1): the block ends one
-   line early, and a one-line block ends before it starts ---- *)
+   line early, and a one-line block ends before it starts (the only shape in which a clause fails: end line
+   before start line) ---- *)
 Definition cls_html_end (L : list srcline) (f : fail) : bool :=
   match nval (f_node f) with
-  | HtmlBlock ty _ => (1 <=? ty) && (ty <=? 5)
+  | HtmlBlock ty _ => (1 <=? ty) && (ty <=? 5) && is_B f && (el (fsp f) <? sl (fsp f))
   | _ => false
   end.
 
@@ -267,17 +271,31 @@ Definition cls_ml_inline (L : list srcline) (f : fail) : bool :=
   | _ => false
   end.
 
-(* ---- description_list: the documentation says the description lists extension still has issues ---- *)
+(* ---- description_list: the documentation says the description lists extension still has issues; the
+   code (parse_desc_list_details) says which: the end of every DescriptionItem and DescriptionDetails but
+   the last, and every DescriptionTerm (it gets the start of the details); the paragraph of a term that is
+   directly followed by its details line is still open when it is moved into the term and is closed later
+   with the end of a later line.  Predicate: the node is one of the four description list kinds, or the
+   Paragraph directly inside a DescriptionTerm.  (Nodes below them are not in the class.) ---- *)
 Definition is_dl (n : node) : bool :=
   match nval n with DescriptionList | DescriptionItem _ _ _ | DescriptionTerm | DescriptionDetails => true | _ => false end.
-Definition cls_dl (L : list srcline) (f : fail) : bool := existsb is_dl (f_node f :: f_anc f).
+Definition cls_dl (L : list srcline) (f : fail) : bool :=
+  is_dl (f_node f) ||
+  match nval (f_node f), f_anc f with
+  | Paragraph, p :: _ => match nval p with DescriptionTerm => true | _ => false end
+  | _, _ => false
+  end.
 
 (* ---- nul_shift: positions are computed on the buffer in which every NUL byte (1 byte) has been replaced
-   by U+FFFD (3 bytes): on a line that contains NUL, columns after it are 2 too large per NUL ---- *)
+   by U+FFFD (3 bytes): on a line that contains NUL, columns after it are 2 too large per NUL.
+   Predicate: a NUL lies on the node's start line before its start column, or on its end line at or before
+   its end column (a node that lies entirely in front of the first NUL of its line is not in the class) ---- *)
 Definition line_has (L : list srcline) (ln : N) (p : byte -> bool) : bool :=
   match line_at L ln with Some l => existsb p (ln_body l) | None => false end.
+Definition nul_before (L : list srcline) (ln c : N) : bool :=
+  match line_at L ln with Some l => existsb (fun b => beqb b x00) (firstn (N.to_nat c) (ln_body l)) | None => false end.
 Definition cls_nul (L : list srcline) (f : fail) : bool :=
-  line_has L (sl (fsp f)) (fun b => beqb b x00) || line_has L (el (fsp f)) (fun b => beqb b x00).
+  nul_before L (sl (fsp f)) (sc (fsp f) - 1) || nul_before L (el (fsp f)) (ec (fsp f)).
 
 (* ---- table_escaped_pipe: the content of a cell is unescaped (backslash pipe -> pipe) BEFORE its inlines are
    parsed, so every inline after an escaped pipe is one column to the left per escaped pipe ---- *)
@@ -311,31 +329,87 @@ Fixpoint descendants (n : node) : list node :=
   | Node _ _ ch => (fix go (l : list node) : list node :=
                       match l with [] => [] | c :: r => c :: descendants c ++ go r end) ch
   end.
-Definition ends_beyond_line (L : list srcline) (n : node) : bool :=
-  match nval n with
-  | Link _ _ | Image _ _ =>
-    (sl (nsp n) =? el (nsp n)) &&
-    match line_at L (el (nsp n)) with
-    | Some l => blen (ln_full l) <? ec (nsp n)
-    | None => false
-    end
-  | _ => false
-  end.
-Definition cls_link_nl (L : list srcline) (f : fail) : bool :=
-  is_inline (f_node f) &&
-  match nearest_block f with
-  | Some b => existsb (ends_beyond_line L) (descendants b)
+Definition is_link_or_image (n : node) : bool := match nval n with Link _ _ | Image _ _ => true | _ => false end.
+Definition is_wikilink (n : node) : bool := match nval n with WikiLink _ => true | _ => false end.
+Definition ends_beyond_line_k (kindp : node -> bool) (L : list srcline) (n : node) : bool :=
+  kindp n && (sl (nsp n) =? el (nsp n)) &&
+  match line_at L (el (nsp n)) with
+  | Some l => blen (ln_full l) <? ec (nsp n)
   | None => false
   end.
+Definition ends_beyond_line := ends_beyond_line_k is_link_or_image.
+(* ... and the failing node is that link, contains it, or starts at or after its reported end *)
+Definition same_node (a b : node) : bool := sp_eqb (nsp a) (nsp b) && kind_eqb (kind_of (nval a)) (kind_of (nval b)).
+Definition cls_nl_uncounted (kindp : node -> bool) (L : list srcline) (f : fail) : bool :=
+  is_inline (f_node f) &&
+  match nearest_block f with
+  | Some b =>
+    existsb (fun k => ends_beyond_line_k kindp L k &&
+                      (same_node k (f_node f) || existsb (same_node k) (descendants (f_node f)) ||
+                       lex_le (el (nsp k)) (ec (nsp k)) (sl (fsp f)) (sc (fsp f))))
+            (descendants b)
+  | None => false
+  end.
+Definition cls_link_nl := cls_nl_uncounted is_link_or_image.
+(* ---- wikilink_newline: the same for a wikilink: handle_wikilink scans to the closing brackets across a
+   line break and positions the node with make_inline on the line it started, the line counter and the
+   column offset are not moved ---- *)
+Definition cls_wikilink_nl := cls_nl_uncounted is_wikilink.
 
 (* ---- footnote_name_newline (F25): a footnote reference (or the text it falls back to) whose name spans a
    line break takes its start column from the first line and its end column from the second ---- *)
+(* The line break inside the name is the witness: only Text and HtmlInline pieces of the name are removed,
+   so the break stays in the tree right AFTER the reference (or after the Text it falls back to when the
+   name has no definition, possibly merged with its neighbours), and the source line of that break ends
+   inside a footnote bracket that is still open. *)
+Definition is_break (n : node) : bool := match nval n with SoftBreak | LineBreak => true | _ => false end.
+(* open = Some d: inside a footnote bracket, with d plain brackets open inside it *)
+Fixpoint fn_open_at_end (s : bytes) (open : option nat) : bool :=
+  match s with
+  | [] => match open with Some _ => true | None => false end
+  | b :: r =>
+    match open with
+    | None => if beqb b x5b && match r with c :: _ => beqb c x5e | [] => false end
+              then fn_open_at_end r (Some O) else fn_open_at_end r None
+    | Some d => if beqb b x5b then fn_open_at_end r (Some (S d))
+                else if beqb b x5d then fn_open_at_end r (match d with O => None | S d' => Some d' end)
+                else fn_open_at_end r open
+    end
+  end.
+Definition break_in_open_name (L : list srcline) (b : node) : bool :=
+  is_break b &&
+  match line_at L (sl (nsp b)) with
+  | Some l => fn_open_at_end (firstn (N.to_nat (sc (nsp b) - 1)) (ln_body l)) None
+  | None => false
+  end.
+Fixpoint break_follows (L : list srcline) (n : node) (l : list node) : bool :=
+  match l with
+  | a :: ((b :: _) as r) =>
+    (same_node a n && (negb (sp_before (nsp a) (nsp b)) ||
+                       existsb (fun k => break_in_open_name L k && (sl (nsp k) =? sl (nsp a))) r)) || break_follows L n r
+  | _ => false
+  end.
+(* Any other piece of the name that is not a Text or HtmlInline (an image, a link, a code span, a nested
+   reference) stays behind the reference in the same way: the sibling right after the reference does not
+   come after it.  Second shape of the nested reference: another footnote reference inside the name (a footnote bracket opened while
+   one is open) is not a Text either; it stays behind the outer reference, and when neither has a definition
+   both fall back to Text and are merged in that (wrong) order. *)
+Fixpoint fn_nested (s : bytes) (open : bool) : bool :=
+  match s with
+  | [] => false
+  | b :: r =>
+    if beqb b x5d then fn_nested r false
+    else if beqb b x5b && match r with c :: _ => beqb c x5e | [] => false end then open || fn_nested r true
+    else fn_nested r open
+  end.
 Definition cls_footnote_nl (L : list srcline) (f : fail) : bool :=
   match nval (f_node f) with
   | FootnoteReference _ _ _ => true
   | Text lit => contains lit [x5b; x5e]
   | _ => false
-  end.
+  end &&
+  (match f_anc f with p :: _ => break_follows L (f_node f) (nch p) | [] => false end ||
+   match line_at L (sl (fsp f)) with Some l => fn_nested (ln_body l) false | None => false end).
 
 (* ---- partial_tab: when a tab after a container marker is only partly consumed by the marker, add_line
    writes the rest of the tab into the content as spaces; they count as source bytes, so the inlines of
@@ -349,8 +423,15 @@ Fixpoint tab_in_prefix (s : bytes) : bool :=
     else if beqb b x20 || beqb b x3e || beqb b x2d || beqb b x2b || beqb b x2a || beqb b x2e || beqb b x29 || is_digit b
     then tab_in_prefix r else false
   end.
+(* a tab can be consumed in part only by a container (quote marker, list item indentation) *)
+Definition is_container_n (n : node) : bool :=
+  match nval n with
+  | BlockQuote | MultilineBlockQuote _ _ | Alert _ | Item _ | TaskItem _ | FootnoteDefinition _ _
+  | DescriptionItem _ _ _ | DescriptionDetails => true
+  | _ => false
+  end.
 Definition cls_partial_tab (L : list srcline) (f : fail) : bool :=
-  is_inline (f_node f) &&
+  is_inline (f_node f) && existsb is_container_n (f_anc f) &&
   (match line_at L (sl (fsp f)) with Some l => tab_in_prefix (ln_body l) | None => false end ||
    match line_at L (el (fsp f)) with Some l => tab_in_prefix (ln_body l) | None => false end).
 
@@ -363,9 +444,7 @@ Definition cls_wikilink (L : list srcline) (f : fail) : bool :=
 
 Local Open Scope string_scope.
 Definition classes : list (string * (list srcline -> fail -> bool)) :=
-  [ ("bom_line1", cls_bom);
-    ("nul_shift", cls_nul);
-    ("html_block_end_condition", cls_html_end);
+  [ ("html_block_end_condition", cls_html_end);
     ("end_col_zero", cls_end_col_zero);
     ("mbq_unfinalized", cls_mbq);
     ("thematic_break_in_container", cls_hr);
@@ -380,7 +459,10 @@ Definition classes : list (string * (list srcline -> fail -> bool)) :=
     ("multiline_inline_offset", cls_ml_inline);
     ("footnote_name_newline", cls_footnote_nl);
     ("link_dest_newline", cls_link_nl);
-    ("partial_tab", cls_partial_tab) ].
+    ("wikilink_newline", cls_wikilink_nl);
+    ("partial_tab", cls_partial_tab);
+    ("nul_shift", cls_nul);
+    ("bom_line1", cls_bom) ].
 
 Definition classify1 (L : list srcline) (f : fail) : option string :=
   match find (fun c => snd c L f) classes with Some c => Some (fst c) | None => None end.
